@@ -268,8 +268,8 @@ func (r *fileRW) seams() {
 				n.Fun = r.sim("Exit")
 				return true
 			}
-			if name, ok := r.pkgSel(n.Fun, "os/signal"); ok && name == "Notify" {
-				n.Fun = r.sim("SignalNotify")
+			if name, ok := r.pkgSel(n.Fun, "os/signal"); ok && (name == "Notify" || name == "Stop") {
+				n.Fun = r.sim("Signal" + name)
 				return true
 			}
 			if name, ok := r.pkgSel(n.Fun, "net"); ok && (name == "Dial" || name == "Listen") {
